@@ -139,6 +139,13 @@ func (s *NTSKEServer) handle(c *tls.Conn) {
 		return
 	}
 	stream, cuts, closeAfter := script(rec)
+	if closeAfter == -2 { // stall: write what the script gave and keep the connection open without ever finishing
+		_, _ = c.Write(stream)
+		_ = c.SetDeadline(time.Now().Add(30 * time.Second))
+		buf := make([]byte, 16)
+		_, _ = c.Read(buf)
+		return
+	}
 	if closeAfter >= 0 && closeAfter < len(stream) {
 		stream = stream[:closeAfter]
 	}
